@@ -105,6 +105,17 @@ def run(model, col, tier):
     for ob in sub.obligations:
         if any(k in ob.construct for k in ("framing", "payload", "items", "Code.Encode")):
             col.obligations.append(ob)
+    # an instruction is its opcode byte followed by its immediates, all written to the same stream
+    insw = model.cls(WA, "Instruction").own_method("WriteTo")
+    ti = Terms(model, insw)
+    oi = ti.out(insw.args.args[1].arg)
+    shape_ok = len(oi) == 2 and oi[0][0] == "byte" and oi[0][1].endswith("opcode") and oi[1][0] == "if" and oi[1][1].endswith("args") and not oi[1][3] \
+        and len(oi[1][2]) == 1 and oi[1][2][0][0] == "each" and oi[1][2][0][1] == oi[1][1] and len(oi[1][2][0][3]) == 1 and oi[1][2][0][3][0][0] == "leb" and oi[1][2][0][3][0][1] == oi[1][2][0][2]
+    if not shape_ok and len(oi) == 2 and oi[0][0] == "byte" and oi[1][0] == "each":
+        # unguarded loop over the immediates (an empty list writes nothing): equivalent
+        shape_ok = oi[0][1].endswith("opcode") and oi[1][1].endswith("args") and len(oi[1][3]) == 1 and oi[1][3][0][0] == "leb" and oi[1][3][0][1] == oi[1][2]
+    col.check(shape_ok and len(ti.buffers) == 1, "R19.2", f"{WA}::Instruction.WriteTo", "byte(opcode) then uleb/sleb(arg) for each immediate, to the output stream",
+              f"an instruction is written as {oi} (streams {sorted(ti.buffers)}); expected its opcode byte followed by each immediate", WA, insw)
     # ---------------- R19.3 ------------------------------------------------------
     ws = model.func(WA, "WriteString")
     t = Terms(model, ws)
